@@ -142,6 +142,8 @@ def main(run: Run):
     run.assumptions += BASE_ASSUMPTIONS_L2
     run.functions["amaranth_soc.wishbone.sram.WishboneSRAM.elaborate"] = "per-configuration (bounded: geometry/init), all inputs/states/time"
     run_configs(run, __name__, cfgs, must_accept=lambda cfg: cfg["size"] >= 2)     # the property quantifies over sizes 2..N
+    from . import ctor_l1
+    ctor_l1.add_to(run, ['sram_init'])
     # L1: the statements the real elaborate() issues - for every size / data width / granularity / init image (recording stubs)
     from ..pyvc.driver import discharge_all
     from ..pyvc.engine import Unsupported
